@@ -27,9 +27,10 @@ Qed.
 Lemma cse_nets_ok_split nl : forall ns pre, cse_nets_ok nl pre ns = true ->
   forall l1 n l2, ns = l1 ++ n :: l2 -> cse_net_ok nl (pre ++ l1) n = true.
 Proof.
+  unfold cse_nets_ok, cse_net_ok.
   induction ns as [|m r IH]; intros pre H l1 n l2 E.
   - destruct l1; discriminate E.
-  - cbn [cse_nets_ok] in H. apply andb_true_iff in H. destruct H as [H1 H2].
+  - cbn [cse_nets_ok_g] in H. apply andb_true_iff in H. destruct H as [H1 H2].
     destruct l1 as [|m' l1]; cbn [app] in E; injection E as -> E.
     + rewrite app_nil_r. assumption.
     + specialize (IH (pre ++ [m']) H2 l1 n l2 E). rewrite <- app_assoc in IH. exact IH.
@@ -52,7 +53,7 @@ Let Hwidths : forallb (fun x => 0 <=? wwidth x) (wires nl) = true := proj1 Hpart
 Lemma ok_parts : nets nl' = flat_map (cse_tr nl) (nets nl)
   /\ cse_nets_ok nl [] (nets nl) = true /\ forallb (cse_base_ok nl) (rdy0 nl) = true.
 Proof.
-  unfold cse_pass_ok in Hok. apply andb_true_iff in Hok. destruct Hok as [H H3].
+  unfold cse_pass_ok in Hok. cbv zeta in Hok. apply andb_true_iff in Hok. destruct Hok as [H H3].
   apply andb_true_iff in H. destruct H as [H1 H2]. apply nets_eqb_eq in H1. auto.
 Qed.
 
@@ -92,13 +93,14 @@ Proof.
   intros pre n post Hsplit Hc rdy st st' ins v v' Hst HI Hargs Hd Har.
   destruct ok_parts as [_ [Hpos _]].
   pose proof (cse_nets_ok_split nl (nets nl) [] Hpos pre n post Hsplit) as Hn.
-  cbn [app] in Hn. unfold cse_net_ok in Hn.
+  cbn [app] in Hn. unfold cse_net_ok, cse_net_ok_g in Hn. cbv zeta in Hn.
+  fold (cse_rho nl) (cse_gone nl n) in Hn.
   pose proof (width_nonneg nl Hwidths (ndest n)) as Hwd0.
   set (x := exec_spec nl st v n (ndest n)).
   exists x. split; [apply exec_upd_form; assumption|].
   split; [apply exec_inrange; assumption|].
   assert (Hmemeq : forall m a, smems st m a = smems st' m a) by (apply Hst).
-  unfold cse_tr. destruct (cse_gone nl n) eqn:Eg.
+  unfold cse_tr, cse_tr_g. fold (cse_rho nl) (cse_gone nl n). destruct (cse_gone nl n) eqn:Eg.
   - (* discarded: an earlier net with the same key computes the same value *)
     left. split; [reflexivity|].
     apply andb_true_iff in Hn. destruct Hn as [Hn Hidem].
@@ -140,7 +142,7 @@ Proof.
 Qed.
 
 Lemma not_normal_not_gone n : normal_dest nl n = false -> cse_gone nl n = false.
-Proof. intros H. unfold cse_gone. rewrite H. reflexivity. Qed.
+Proof. intros H. unfold cse_gone, cse_gone_g. rewrite H. reflexivity. Qed.
 
 Lemma cse_Hreg : forall n, In n (nets nl) -> nop n = OpReg ->
   (cse_tr nl n = [] /\ nofold (ndest n) = true
@@ -150,11 +152,12 @@ Lemma cse_Hreg : forall n, In n (nets nl) -> nop n = OpReg ->
         /\ nofold (ndest n) = false /\ arg n'' 0 = rho (arg n 0)
         /\ width_of nl' (ndest n) = width_of nl (ndest n) /\ live nl' rho (arg n 0) = true).
 Proof.
-  intros n Hin Eop. right. destruct (net_in_ok n Hin) as [pre Hn]. unfold cse_net_ok in Hn.
+  intros n Hin Eop. right. destruct (net_in_ok n Hin) as [pre Hn]. unfold cse_net_ok, cse_net_ok_g in Hn.
+  cbv zeta in Hn. fold (cse_rho nl) (cse_gone nl n) in Hn.
   destruct (cse_gone nl n) eqn:Eg.
   - apply andb_true_iff in Hn. destruct Hn as [Hn _]. apply andb_true_iff in Hn.
     destruct Hn as [Hc _]. rewrite Eop in Hc. discriminate Hc.
-  - exists (map_args rho n). unfold cse_tr. rewrite Eg.
+  - exists (map_args rho n). unfold cse_tr, cse_tr_g. fold (cse_rho nl) (cse_gone nl n). rewrite Eg.
     apply andb_true_iff in Hn. destruct Hn as [Hall Hdest]. rewrite Eop in Hdest. cbn [op_has_dest] in Hdest.
     apply andb_true_iff in Hdest. destruct Hdest as [_ Hw]. apply Z.eqb_eq in Hw.
     pose proof Hparts as Hp. destruct Hp as [_ [_ [_ [Hseq _]]]].
@@ -172,10 +175,11 @@ Lemma cse_Hwr : forall n m, In n (nets nl) -> nop n = OpMemWr m ->
   exists n'', cse_tr nl n = [n''] /\ nop n'' = OpMemWr m
     /\ forall i, (i < 3)%nat -> arg n'' i = rho (arg n i) /\ live nl' rho (arg n i) = true.
 Proof.
-  intros n m Hin Eop. destruct (net_in_ok n Hin) as [pre Hn]. unfold cse_net_ok in Hn.
+  intros n m Hin Eop. destruct (net_in_ok n Hin) as [pre Hn]. unfold cse_net_ok, cse_net_ok_g in Hn.
+  cbv zeta in Hn. fold (cse_rho nl) (cse_gone nl n) in Hn.
   assert (Eg : cse_gone nl n = false).
   { apply not_normal_not_gone. unfold normal_dest. rewrite Eop. reflexivity. }
-  rewrite Eg in Hn. exists (map_args rho n). unfold cse_tr. rewrite Eg.
+  rewrite Eg in Hn. exists (map_args rho n). unfold cse_tr, cse_tr_g. fold (cse_rho nl) (cse_gone nl n). rewrite Eg.
   split; [reflexivity|]. split; [exact Eop|].
   apply andb_true_iff in Hn. destruct Hn as [Hall _].
   pose proof Hparts as Hp. destruct Hp as [_ [_ [_ [Hseq _]]]].
@@ -194,7 +198,8 @@ Lemma cse_Hbase : forall st st' ins, st_rel nofold nocst st st' ->
   /\ In (rho w) ([] ++ rdy0 nl).
 Proof.
   intros st st' ins [S1 [S2 S3]] w Hw. destruct ok_parts as [_ [_ Hb]].
-  rewrite forallb_forall in Hb. specialize (Hb w Hw). unfold cse_base_ok in Hb.
+  rewrite forallb_forall in Hb. specialize (Hb w Hw). unfold cse_base_ok, cse_base_ok_g in Hb.
+  fold (cse_rho nl) in Hb.
   apply andb_true_iff in Hb. destruct Hb as [Hr Hsame]. apply Z.eqb_eq in Hr.
   rewrite Hr. split; [|assumption].
   intros Hl. unfold live, declared' in Hl. rewrite Hr in Hl.
@@ -207,7 +212,7 @@ Qed.
 Lemma cse_Hcomb_tr : forall n, In n (nets nl) -> is_comb (nop n) = true ->
   forall n'', In n'' (cse_tr nl n) -> is_comb (nop n'') = true.
 Proof.
-  intros n Hin Hc n''. unfold cse_tr. destruct (cse_gone nl n); intros Hi; simpl in Hi;
+  intros n Hin Hc n''. unfold cse_tr, cse_tr_g. destruct (cse_gone_g nl (cse_wm nl) n); intros Hi; simpl in Hi;
     try contradiction. destruct Hi as [<-|[]]. exact Hc.
 Qed.
 
